@@ -211,6 +211,29 @@ CHECKS["C13"] = dict(
     assumptions=["reference models (ref/refgeom.hh, ref/reflattice.hh) are correct"],
 )
 
+CHECKS["C14"] = dict(
+    title="Exceptional exits are clean: rejected calls change nothing, failures leak none",
+    quick=T([("c14_faults", 1)], cases=40000, secs=100, flavour="rel"),
+    thorough=T([("c14_faults", 1)], cases=400000, secs=1200, flavour="rel"),
+    rule="part A (40%): a valid object of C/NNC polyhedra, Grid, BD_Shape<mpq>, Octagonal_Shape<mpz>, Rational_Box, Pointset_Powerset<C_Polyhedron>, "
+         "Constraints_Product<C_Polyhedron,Grid>, MIP_Problem, PIP_Problem, expressions and systems is built by a short history and ONE call "
+         "violating exactly one documented precondition is made (about 100 kinds per domain); oracle: the documented exception type, "
+         "receiver and arguments equal to pre-call copies (== and reference geometry), OK(), same follow-up results. Part B (60%): a "
+         "scenario of 2-8 library calls is run cleanly (counting N allocation events of operator new and GMP, C abandonment checkpoints, "
+         "W weight units) and re-run from scratch with one fault for every k in 1..N when N <= 300 (stride sample above): k-th operator "
+         "new fails, k-th allocation of new+GMP fails (through PPL's own GMP allocation hook), a Throwable thrown at the k-th "
+         "maybe_abandon(), a weight threshold of k units; oracle: only the expected exception arrives, bystanders and const arguments keep "
+         "value and OK(), a failed const operation repeated answers as in the clean run, every object can be assigned and destroyed, the rest "
+         "of the scenario then reproduces the clean results, live allocations do not grow on three identical repetitions (leak), no global "
+         "state is left behind. Objects are first inspected in a forked child so that a broken object cannot end the search. "
+         "Non-trivial: part A - receiver neither empty nor universe; part B - the fault fired inside a library call.",
+    technique="property-based testing with fault enumeration (k-th allocation / k-th abandonment checkpoint / weight threshold per generated scenario)",
+    level_text="Generated scenarios with enumeration of the failure positions of each scenario.",
+    level_note="coefficient overflow is not injected (needs the bounded-coefficient flavours); powersets get allocation faults only (they absorb abandonment); run in the shipped (rel) configuration because assertion code reacts to injected faults.",
+    design_ref="DESIGN.md 4a C14",
+    assumptions=["libgmp lets an exception thrown by the allocation functions propagate (PPL_GMP_SUPPORTS_EXCEPTIONS is 1; probed)"],
+)
+
 CHECKS["C18"] = dict(
     title="Termination analysis returns only genuine ranking functions; methods agree",
     quick=T([("c18_termination", 1)], cases=60000, secs=50),
